@@ -464,11 +464,13 @@ class History:
             elif not d.registered:
                 self.disp_seq.pop(name, None)
 
-    def _callback(self, rid, gen):
+    def _callback(self, rid, gen, raises=False):
         log = self.log
 
         def cb(msg, time, addr, recv_port):
             log.append((rid, gen, msg, time, addr, recv_port))
+            if raises:
+                raise ValueError('generated: responder function fails')
         return cb
 
     def _pick(self, k):
@@ -488,9 +490,14 @@ class History:
             tmpl = None if m.tmpl is None else [
                 PREDS[x['pred']] if isinstance(x, dict) else x
                 for x in m.tmpl]
+            if spec.get('tmpl_bare'):
+                tmpl = tmpl[0]
+                self.labels.add('bare_template')
             ctor = OscFunc if m.kind == 'exact' else OscFunc.matching
-            m.obj = ctor(self._callback(m.rid, 0), m.path, src, recv,
-                         arg_template=tmpl)
+            if spec.get('raises'):
+                self.labels.add('raising_function')
+            m.obj = ctor(self._callback(m.rid, 0, spec.get('raises', False)),
+                         m.path, src, recv, arg_template=tmpl)
             self.rs.append(m)
             self.labels.add('new:' + m.kind)
             if m.tmpl is not None:
@@ -650,6 +657,8 @@ class History:
         order += [i for i in range(nmsg) if i not in order]
         raised = None
         for src, name, where, rep in errors:
+            if 'generated: responder function fails' in rep:
+                continue        # the failure the case asked for
             raised = f'{name}@{where}'
             v.fail(f'dispatch_raised:{raised}',
                    f'while dispatching {expect_msgs!r}: {rep} (logged by '
@@ -943,6 +952,12 @@ def history_strategy():
             spec = {'kind': kind, 'path': path, 'src': draw(src),
                     'recv': draw(recv), 'tmpl': draw(tmpl)}
             spec.update(kw)
+            if spec['tmpl'] is not None and len(spec['tmpl']) == 1 and \
+                    not isinstance(spec['tmpl'][0], dict) and \
+                    spec['tmpl'][0] is not None and \
+                    draw(st.integers(0, 2)) == 0:
+                # a one-value template given as the bare value
+                spec['tmpl_bare'] = True
             created.append(spec)
             return ['new', spec]
 
@@ -975,6 +990,13 @@ def history_strategy():
                    new('matching', child, **plain),
                    new('matching', ext, **plain), message(p0),
                    message(p0 + '*'), message(rm.pattern_for(draw, child))]
+        elif sc == 5:     # a one-shot responder whose function raises
+            # (alone in its history: what an exception in one responder
+            # does to the others is not part of the statement; that the
+            # responder has fired and is never invoked again, is)
+            ops = [new(kind, p0, raises=True, **plain),
+                   ['one_shot', 0], message(p0), message(p0), message(p0)]
+            return {'ops': ops}
         nres = sum(1 for o in ops if o[0] == 'new')
         n = draw(st.integers(3, 24))
         for _ in range(n):
